@@ -9,6 +9,9 @@ from .core import Unsupported, mkbool, SymInt, SymBool
 from .symre import Text, SreMatcher, b_and, b_or, b_not, to_z3, is_conc
 
 
+HASH_CONC_LIMIT = 700
+
+
 def chars_of(o):
     if isinstance(o, SymStr):
         return list(o.c)
@@ -138,7 +141,10 @@ class SymStr:
         p = to_plain(self)
         if p is not None:
             return hash(p)
-        raise Unsupported('hash of a symbolic string')
+        # dict/set key: concretise by exhaustive forking when every symbolic character has a small domain
+        ex = core.cur()
+        chars = [c if isinstance(c, int) else ex.concretize(c, HASH_CONC_LIMIT) for c in self.c]
+        return hash(''.join(map(chr, chars)))
 
     def __str__(self):
         p = to_plain(self)
@@ -231,7 +237,9 @@ class SymStr:
                 else:
                     out.append(z3.If(z3.And(ch >= 65, ch <= 90), ch + 32, ch))
             else:
-                raise Unsupported('case mapping of a symbolic non-ASCII character')
+                v = core.cur().concretize(ch, HASH_CONC_LIMIT)      # non-ASCII: fork over the feasible values
+                r = chr(v).upper() if up else chr(v).lower()
+                out.extend(ord(x) for x in r)
         return mks(out)
 
     def ljust(self, width, fill=' '):
@@ -411,6 +419,9 @@ def decdigits(term, nd):
     return [48 + (term / (10 ** j)) % 10 for j in range(nd - 1, -1, -1)]
 
 
+REPR_STUB = None
+
+
 def hz_obj(a):
     """an object of a class defined in hszinc (its __str__/__repr__ are instrumented Python code that may
     return symbolic text, which C-level str()/repr()/% would reject)"""
@@ -431,7 +442,7 @@ def obj_repr(a):
 
 def sx_mod(l, r):
     args = r if isinstance(r, tuple) else (r,)
-    if not (has_sym(l) or any(has_sym(a) or hz_obj(a) for a in args)):
+    if not (has_sym(l) or any(has_sym(a) or hz_obj(a) or (isinstance(a, BaseException) and any(isinstance(x, SymStr) for x in a.args)) for a in args)):
         return l % r
     if isinstance(l, SymStr):
         p = to_plain(l)
@@ -457,7 +468,9 @@ def sx_mod(l, r):
         a = args[ai]
         ai += 1
         flags, width, prec = m.group('flags'), int(m.group('width') or 0), m.group('prec')
-        if conv in 'sr' and hz_obj(a):
+        if conv == 's' and isinstance(a, BaseException) and len(a.args) == 1 and isinstance(a.args[0], SymStr):
+            piece = list(a.args[0].c)          # str(exception) is str(args[0])
+        elif conv in 'sr' and hz_obj(a):
             piece = chars_of(obj_str(a) if conv == 's' else obj_repr(a))
         elif conv == 's':
             if isinstance(a, SymStr):
@@ -474,8 +487,14 @@ def sx_mod(l, r):
                     raise Unsupported('%s of ' + type(a).__name__)
         elif conv == 'r':
             if isinstance(a, SymStr):
-                raise Unsupported('%r of a symbolic string')
-            piece = [ord(c) for c in repr(a)]
+                # message stub: quote + raw characters + quote (escapes inside repr() are not modelled; hszinc uses
+                # %r of text only in exception/log messages, and code generation from repr is handled by a separate stub)
+                if REPR_STUB is not None:
+                    piece = chars_of(REPR_STUB(a))
+                else:
+                    piece = [39] + list(a.c) + [39]
+            else:
+                piece = [ord(c) for c in repr(a)]
         elif conv in 'xX' and isinstance(a, SymInt):
             nd = None
             for k in range(1, 7):
@@ -586,7 +605,13 @@ def sym_int(a, base=10):
                 raise Unsupported('int() with base %r' % base)
             # non-ASCII decimal digits are accepted by int(); treat them as a separate (unsupported) class
             if not bool(mkbool(ch < 128)):
-                raise Unsupported('int() of a symbolic non-ASCII character')
+                v = core.cur().concretize(ch, HASH_CONC_LIMIT)      # non-ASCII digit candidates: fork over the feasible values
+                try:
+                    d = int(chr(v), base)
+                except ValueError:
+                    raise ValueError('invalid literal for int() with base %d' % base)
+                val = val * base + d
+                continue
             if not bool(mkbool(dt >= 0)):
                 raise ValueError('invalid literal for int() with base %d' % base)
             d = dt
